@@ -61,11 +61,17 @@ def port_run(arrivals, sequential):
     assert tr.perf_counter() == loop.time()
     tr._global_sync_cycles.clear()
     events, out, rec = [], [], {}
+    vlevels = []        # the virtual level right after each write's debit
     seq = []            # arrivals and writes in the order they happened, with the closure's own bits_in_bucket as each write found it
 
     def bucket_level():
         fn = tr.PortTransport.write_frame
         return dict(zip(fn.__code__.co_freevars, fn.__closure__))["bits_in_bucket"].cell_contents
+
+    def virtual_level():      # what the next top-up would compute, uncapped: bits_in_bucket + elapsed * FILL_RATE (the quantity the floor theorem bounds)
+        fn = tr.PortTransport.write_frame
+        cells = dict(zip(fn.__code__.co_freevars, fn.__closure__))
+        return cells["bits_in_bucket"].cell_contents + RATE_BITS_S * (loop.time() - cells["last_time_bit_added"].cell_contents)
 
     class Sem(asyncio.BoundedSemaphore):
         async def acquire(self):
@@ -92,6 +98,7 @@ def port_run(arrivals, sequential):
             events.append(("W", loop.time()))
             rec[asyncio.current_task()]["wr"] = loop.time()
             seq.append(("W", rec[asyncio.current_task()]["k"], loop.time(), bucket_level()))
+            vlevels.append(virtual_level() - (330 + 10 * len(rec[asyncio.current_task()]["frame"][46:])))
             out.append(data)
 
     rows = []
@@ -132,7 +139,7 @@ def port_run(arrivals, sequential):
             r[k] -= t0[0]
     events = [(k, t - t0[0]) for k, t in events]
     port_run.seq = [(a, k, t - t0[0], x) for a, k, t, x in seq]
-    port_run.final_level = bucket_level()
+    port_run.vlevels = vlevels
     return rows, events, out
 
 
@@ -313,9 +320,9 @@ def run(ctx: Ctx) -> None:
         # the real interleaving as a run of the concurrent model: accepted, and every write finds the level the model says (exact, 2^-20 bit)
         coq_k.append(f"ck {K} [" + "; ".join((f"A {k} {ticks(t)} {2 * x}" if a == "A" else f"CWr {k} {ticks(t)}") for a, k, t, x in port_run.seq) + "]")
         impl_k.append([(1, lvl * TPS) for a, k, t, lvl in port_run.seq if a == "W"])
-        floor = min([lvl - (330 + 20 * next(r["n"] for r in rows if r["k"] == k)) for a, k, t, lvl in port_run.seq if a == "W"] + [port_run.final_level])
+        floor = min(port_run.vlevels)
         if floor < -(K - 1) * MAX_FRAME_BITS - 1e-6:
-            ctx.violation("bucket-overdrawn-beyond-pending-frames", f"the bucket level fell to {floor:.1f} bits with at most {K} calls pending at once (floor: -{K - 1} frames)",
+            ctx.violation("bucket-overdrawn-beyond-pending-frames", f"the bucket level (as the next top-up would compute it) fell to {floor:.1f} bits with at most {K} calls pending at once (floor: -{K - 1} frames)",
                           {"pattern": pat, "arrivals": arr, "max_pending": K}, "schedule")
     # MQTT
     n_mq = 30 if thorough else 8
